@@ -103,6 +103,9 @@ def make_data(rnd, ncomp, weighted, n=None):
     no = rs.uniform(-3, 3, n)
     data = tuple(np.sin(e + i) * 2 + 0.5 * no * (i + 1) + 0.3 * e + rs.normal(0, 0.4, n) for i in range(ncomp))
     weights = tuple(rs.uniform(0.25, 4.0, n) for _ in range(ncomp)) if weighted else None
+    # short dyadics (multiples of 2^-8): exact rational arithmetic in Coq stays cheap; predictions remain full floats
+    data = tuple(np.round(d * 256) / 256 for d in data)
+    weights = None if weights is None else tuple(np.round(w * 256) / 256 for w in weights)
     return (e, no), data, weights, rs
 
 
